@@ -7,6 +7,7 @@ import (
 	"sort"
 
 	"golang.org/x/tools/go/ssa"
+	"golang.org/x/tools/go/ssa/ssautil"
 )
 
 // Helpers of the C20 rules that make them independent of the surface form of a loop
@@ -632,6 +633,9 @@ type c20RetWalk struct {
 	StopEdge func(from, to *ssa.BasicBlock) bool // edges the walk does not take
 	RetNil   int                                 // set before onReturn is called: nil-ness of the returned value on this path (c20NilUnknown / c20IsNil / c20NonNil)
 	facts    c20Facts                            // facts of the path being walked (valid inside callbacks)
+	// Sixth round: values that are non-nil by a contract the caller has established (the result of Err() of a context read
+	// after its Done channel was found closed); asked with the value as resolved along the path.
+	NonNilIf func(ssa.Value) bool
 }
 
 // c20Facts: nil-ness learnt along a path, keyed by the value as resolved on that path.
@@ -732,6 +736,9 @@ func (w *c20RetWalk) nilness(b c20Bind, v ssa.Value) int {
 	}
 	if n, ok := w.facts[r]; ok {
 		return n
+	}
+	if w.NonNilIf != nil && w.NonNilIf(r) {
+		return c20NonNil
 	}
 	switch x := r.(type) {
 	case *ssa.Const:
@@ -979,7 +986,16 @@ func c20CancelReturns(p *Prog, tm *Termer, sel *ssa.Select, isEvent func(ssa.Ins
 	}
 	ctxV := strip(done.Call.Value)
 	ctxT := tm.Of(done.Call.Value).String()
-	w := &c20RetWalk{P: p, Ready: sel, OnInstr: func(in ssa.Instruction) string {
+	// the walk assumes that the receive case was ready, i.e. that the Done channel of ctxV is closed. By the contract of
+	// context.Context, Err() of that context is non-nil from then on: a nil test of such a value that lies between the
+	// select and the return (the error handed out of a helper through a result variable and tested by the caller -
+	// `if err = runGenerations(..); err != nil { return err }`) is decided accordingly.
+	cancelErr := func(v ssa.Value) bool {
+		call, isCall := strip(v).(*ssa.Call)
+		return isCall && call.Call.IsInvoke() && call.Call.Method.Name() == "Err" && len(call.Call.Args) == 0 &&
+			strip(call.Call.Value) == ctxV && c20After(sel, call)
+	}
+	w := &c20RetWalk{P: p, Ready: sel, NonNilIf: cancelErr, OnInstr: func(in ssa.Instruction) string {
 		if isEvent(in) {
 			return "after the context was found cancelled the run goes on: " + in.String() + " @" + p.Pos(in.Pos())
 		}
@@ -1011,6 +1027,42 @@ func c20CancelReturns(p *Prog, tm *Termer, sel *ssa.Select, isEvent func(ssa.Ins
 		return false, "no return is reachable after the context was found cancelled"
 	}
 	return true, ""
+}
+
+// c20CancelErrs: the Err() results that are non-nil by the contract of context.Context - Err() invoked on the context
+// whose Done() channel a non-blocking single-case select of fn reads, the call sitting where that select is known to
+// have found the channel ready (a dominating branch outcome says that the index the select delivered is 0).
+func c20CancelErrs(fn *ssa.Function) []ssa.Value {
+	var out []ssa.Value
+	Instrs(fn, func(_ *ssa.BasicBlock, _ int, in ssa.Instruction) {
+		call, ok := in.(*ssa.Call)
+		if !ok || !call.Call.IsInvoke() || call.Call.Method.Name() != "Err" || len(call.Call.Args) != 0 {
+			return
+		}
+		for _, g := range Guards(call.Block()) {
+			x, y, op, okCmp := CmpFact(g.Cond, g.True)
+			if !okCmp || op != token.EQL || !c20IsConstInt(y, "0") {
+				continue
+			}
+			ext, isExt := c20Strip(x).(*ssa.Extract)
+			if !isExt || ext.Index != 0 {
+				continue
+			}
+			sel, isSel := ext.Tuple.(*ssa.Select)
+			if !isSel || sel.Blocking || len(sel.States) != 1 || sel.States[0].Dir != types.RecvOnly {
+				continue
+			}
+			done, isCall := c20Strip(sel.States[0].Chan).(*ssa.Call)
+			if !isCall || !done.Call.IsInvoke() || done.Call.Method.Name() != "Done" || len(done.Call.Args) != 0 {
+				continue
+			}
+			if c20Strip(done.Call.Value) == c20Strip(call.Call.Value) {
+				out = append(out, call)
+				return
+			}
+		}
+	})
+	return out
 }
 
 // c20RetLeaf: one way the operands of a Return can be chosen (phis among them resolved over the incoming edges of
@@ -1663,6 +1715,11 @@ func c20LiteralMap(m ssa.Value) (*ssa.MakeMap, []c20MapEntry, bool) {
 		}
 		m = ct.X
 	}
+	if ld, isLoad := m.(*ssa.UnOp); isLoad && ld.Op == token.MUL {
+		if g, isG := ld.X.(*ssa.Global); isG {
+			return c20GlobalLiteralMap(g)
+		}
+	}
 	mk, ok := m.(*ssa.MakeMap)
 	if !ok || mk.Referrers() == nil {
 		return nil, nil, false
@@ -1703,6 +1760,107 @@ func c20LiteralMap(m ssa.Value) (*ssa.MakeMap, []c20MapEntry, bool) {
 			if mu, isMU := ref.(*ssa.MapUpdate); isMU && !c20After(mu, lk) {
 				return nil, nil, false
 			}
+		}
+	}
+	return mk, entries, len(entries) > 0
+}
+
+// c20GlobalLiteralMap: the same table kept in a package-level variable (`var table = map[K]V{k1: v1, k2: v2}`). The
+// content of the variable is the literal at every lookup when
+//   - the variable is stored exactly once in the whole program, by the package initialiser, and what is stored is a
+//     map created by make in the initialiser whose only other uses are the stores of the literal's entries (constant,
+//     distinct keys; same block, after the creation and before the store to the variable: nothing can see the map
+//     earlier);
+//   - every other mention of the variable anywhere in the program (all functions, function literals included) is a
+//     load whose value is only ever the map operand of a lookup: nobody writes an entry, deletes one, ranges over it,
+//     hands the map or the variable's address to anything or stores it somewhere else;
+//   - no such load sits in the package initialiser itself (every lookup happens after the initialisation: the
+//     functions of a package run only after its variables are initialised).
+func c20GlobalLiteralMap(g *ssa.Global) (*ssa.MakeMap, []c20MapEntry, bool) {
+	if g == nil || g.Pkg == nil || g.Pkg.Prog == nil {
+		return nil, nil, false
+	}
+	initFn := g.Pkg.Func("init")
+	if initFn == nil {
+		return nil, nil, false
+	}
+	var stores []*ssa.Store
+	fine := true
+	for fn := range ssautil.AllFunctions(g.Pkg.Prog) {
+		for _, b := range fn.Blocks {
+			for _, in := range b.Instrs {
+				mentions := false
+				for _, op := range in.Operands(nil) {
+					if op != nil && *op == ssa.Value(g) {
+						mentions = true
+					}
+				}
+				if !mentions {
+					continue
+				}
+				switch x := in.(type) {
+				case *ssa.DebugRef:
+				case *ssa.Store:
+					if x.Addr != ssa.Value(g) || x.Val == ssa.Value(g) || fn != initFn {
+						fine = false
+						continue
+					}
+					stores = append(stores, x)
+				case *ssa.UnOp:
+					if x.Op != token.MUL || fn == initFn || x.Referrers() == nil {
+						fine = false
+						continue
+					}
+					for _, ref := range *x.Referrers() {
+						switch y := ref.(type) {
+						case *ssa.DebugRef:
+						case *ssa.Lookup:
+							if y.X != ssa.Value(x) || y.Index == ssa.Value(x) {
+								fine = false
+							}
+						default:
+							fine = false
+						}
+					}
+				default:
+					fine = false
+				}
+			}
+		}
+	}
+	if !fine || len(stores) != 1 {
+		return nil, nil, false
+	}
+	st := stores[0]
+	mk, ok := st.Val.(*ssa.MakeMap)
+	if !ok || mk.Parent() != initFn || mk.Referrers() == nil || mk.Block() != st.Block() || !c20After(mk, st) {
+		return nil, nil, false
+	}
+	var entries []c20MapEntry
+	seen := map[string]bool{}
+	for _, ref := range *mk.Referrers() {
+		switch x := ref.(type) {
+		case *ssa.DebugRef:
+		case *ssa.Store:
+			if x != st {
+				return nil, nil, false
+			}
+		case *ssa.MapUpdate:
+			k, isC := x.Key.(*ssa.Const)
+			if x.Map != ssa.Value(mk) || x.Value == ssa.Value(mk) || !isC || k.Value == nil {
+				return nil, nil, false
+			}
+			if x.Block() != mk.Block() || !c20After(mk, x) || !c20After(x, st) {
+				return nil, nil, false
+			}
+			ks := k.Value.ExactString()
+			if seen[ks] {
+				return nil, nil, false
+			}
+			seen[ks] = true
+			entries = append(entries, c20MapEntry{Key: k, Val: x.Value})
+		default:
+			return nil, nil, false
 		}
 	}
 	return mk, entries, len(entries) > 0
